@@ -348,7 +348,7 @@ def r07_3(ctx):
                     ctx.ob(f"ok-char-origin:{b.raw.get('impl_self_adt', '').rsplit('::', 1)[-1]}::{b.name}:{_nth(seen_keys, b.id)}", ok, site(b, line=s["line"]), det)
 
 
-@rule("R07.5", 2, "surrogate pairs are decoded exactly: both halves are proven to be 10-bit offsets from a lead (D800..DBFF) and a trail (DC00..DFFF) unit", ["C07"])
+@rule("R07.5", 2, "surrogate pairs are decoded exactly: both halves are proven to be 10-bit offsets from a lead (D800..DBFF) and a trail (DC00..DFFF) unit", ["C07", "C01"])
 def r07_5(ctx):
     lib = ctx.lib
     n = 0
